@@ -5,9 +5,10 @@
 // results are compared: value-identical for integer/bitwise/comparison/selection/conversion/rounding/single-rounding ops,
 // |a-p| <= c*u*sum|terms| for multi-term expressions, relative 2^-11 (against the exact packed_highp value) only for lowp.
 // Aligned vec3 operands are produced through every API-reachable construction path (the hidden 4th lane differs per path).
-// Compiled in parts (-DGLMX_PART=k, k = 0..NPARTS-1 with NPARTS = 10) so that the template instantiations build in parallel.
+// Compiled in parts (-DGLMX_PART=k, k = 0..13) so that the template instantiations build in parallel; part 13 alone defines
+// GLM_FORCE_SWIZZLE (operator swizzles), part 12 holds the raw intrinsic kernels.  Without GLMX_PART everything except the swizzles is built.
 #define GLM_ENABLE_EXPERIMENTAL
-#if defined(GLMX_PART) && GLMX_PART == 9
+#if defined(GLMX_PART) && GLMX_PART == 13
 #define GLM_FORCE_SWIZZLE            // operator swizzles: _swizzle_base1<..., Aligned=true> (type_vec_simd.inl)
 #endif
 #include <glm/glm.hpp>
@@ -216,7 +217,7 @@ template <class OP, typename T, int N, int SH, int LAT> static void RL(Engine& E
   Op& op = E.add(std::string(OP::name()) + shapes[SH] + " <" + TN<T>::n() + "> vec3(8 operand paths)/vec4 x aligned_{highp,mediump,lowp} vs packed, " + (LAT == 1 ? "moderate values" : LAT == 2 ? "special values x shift counts" : "special values"), op_lw<OP, T, N, SH, LAT>);
   std::vector<Domain> d; for (int n = 0; n < N; ++n) d.push_back(DL<T>(LAT == 2 ? (n ? 2 : 0) : LAT)); op.quick = {N == 1 ? d[0] : product(std::string(LAT == 1 ? "MOD^" : LAT == 2 ? "SPEC x SHIFT counts 0..31 ^" : "SPEC^") + std::to_string(N), d)};
   if (LAT != 1 && (N == 1 || (N == 2 && std::is_integral<T>::value))) { Domain e = range("EDGE<" + std::to_string(edgev<T>().size()) + ">", 0, edgev<T>().size(), false), sel = range("edge-lattice", 1, 1, true);
-    op.thorough = {op.quick[0], N == 1 ? product("EDGE lattice", {e, sel}) : product(LAT == 2 ? "EDGE x SHIFT counts" : "EDGE^2", {e, LAT == 2 ? d[1] : e, sel})}; }
+    if (N == 1) op.quick.push_back(product("EDGE lattice", {e, sel})); else op.thorough = {op.quick[0], product(LAT == 2 ? "EDGE x SHIFT counts" : "EDGE^2", {e, LAT == 2 ? d[1] : e, sel})}; }
 }
 
 #define KIND_DEFAULT (is_nan(a) || is_nan(b) || is_nan(c)) ? 1 : 0
@@ -554,19 +555,19 @@ template <typename T> static void op_prod(const Case& c, Outcome& o) { T v[2][4]
 // ===================================================================== intrinsic kernels of glm/simd/*.h that no vec/mat/quat operation routes through
 // (glm_mat4_mul, glm_mat4_mul_vec4, glm_vec4_mul_mat4, glm_mat4_determinant_highp/_lowp, glm_mat4_inverse_lowp, glm_mat4_add/sub, glm_vec4_sign/roundEven/clamp/mix/step/nan/inf)
 // compared with the packed operation of the same name.  Operands are loaded with _mm_set_ps, results read with _mm_storeu_ps.
-#if PART(8)
+#if PART(12)
 static inline void ld4(const float (*m)[4], __m128* out) { for (int c = 0; c < 4; ++c) out[c] = _mm_set_ps(m[c][3], m[c][2], m[c][1], m[c][0]); }
 static inline glm::mat4 st4(const __m128* in) { glm::mat4 r; for (int c = 0; c < 4; ++c) { float t[4]; _mm_storeu_ps(t, in[c]); for (int k = 0; k < 4; ++k) r[c][k] = t[k]; } return r; }
 static inline glm::vec4 stv(__m128 in) { float t[4]; _mm_storeu_ps(t, in); return glm::vec4(t[0], t[1], t[2], t[3]); }
 static void op_kernel_mat(const Case& cs, Outcome& o) {
   typedef float T; T a[4][4], b[4][4], v[4], s; mat_inputs<T>(cs, a, b, v, s); int checked = 0; const int S = 4, K = 0, path = 0; __m128 ma[4], mb[4], mo[4]; ld4(a, ma); ld4(b, mb); __m128 mv = _mm_set_ps(v[3], v[2], v[1], v[0]);
-  glm::mat4 pa = mkMP<T, 4, glm::packed_highp>(a), pb = mkMP<T, 4, glm::packed_highp>(b); glm::vec4 pv(v[0], v[1], v[2], v[3]); auto zero = [](int) { return 0.0; }; auto R = [&]() { return; };
-  long double la[4][4], tmp[4][4]; tolong<T, 4>(a, la); const long double det = ldet(la, 4, false), per = ldet(la, 4, true); (void)R;
+  glm::mat4 pa = mkMP<T, 4, glm::packed_highp>(a), pb = mkMP<T, 4, glm::packed_highp>(b); glm::vec4 pv(v[0], v[1], v[2], v[3]); auto zero = [](int) { return 0.0; };
+  long double la[4][4], tmp[4][4]; tolong<T, 4>(a, la); const long double det = ldet(la, 4, false), per = ldet(la, 4, true);
 #define KCHK(NAME, KIND, A_, P_, MODE, CC, LOWPF, ...) { Ctx c{o, NAME, S, K, path, KIND, 0, true}; auto ra_ = A_; auto rp_ = P_; bool ok = cmp_any(c, ra_, rp_, rp_, MODE, CC, LOWPF, __VA_ARGS__); checked += c.checked; if (!ok) return; }
   glm_mat4_add(ma, mb, mo); KCHK("glm_mat4_add", 0, st4(mo), pa + pb, EXACT, 0, false, zero) glm_mat4_sub(ma, mb, mo); KCHK("glm_mat4_sub", 1, st4(mo), pa - pb, EXACT, 0, false, zero)
-  glm_mat4_mul(ma, mb, mo); KCHK("glm_mat4_mul", 2, st4(mo), pa * pb, TOL, 8, false, [&](int l) { double m = 0; for (int q = 0; q < 4; ++q) m += std::fabs((double)a[q][l % 4] * (double)b[l / 4][q]); return m; })
-  KCHK("glm_mat4_mul_vec4", 3, stv(glm_mat4_mul_vec4(ma, mv)), pa * pv, TOL, 8, false, [&](int r) { double m = 0; for (int q = 0; q < 4; ++q) m += std::fabs((double)a[q][r] * (double)v[q]); return m; })
-  KCHK("glm_vec4_mul_mat4", 4, stv(glm_vec4_mul_mat4(mv, ma)), pv * pa, TOL, 8, false, [&](int cc) { double m = 0; for (int q = 0; q < 4; ++q) m += std::fabs((double)a[cc][q] * (double)v[q]); return m; })
+  glm_mat4_mul(ma, mb, mo); KCHK("glm_mat4_mul", 2, st4(mo), pa * pb, TOL, 16, false, [&](int l) { double m = 0; for (int q = 0; q < 4; ++q) m += std::fabs((double)a[q][l % 4] * (double)b[l / 4][q]); return m; })
+  KCHK("glm_mat4_mul_vec4", 3, stv(glm_mat4_mul_vec4(ma, mv)), pa * pv, TOL, 16, false, [&](int r) { double m = 0; for (int q = 0; q < 4; ++q) m += std::fabs((double)a[q][r] * (double)v[q]); return m; })
+  KCHK("glm_vec4_mul_mat4", 4, stv(glm_vec4_mul_mat4(mv, ma)), pv * pa, TOL, 16, false, [&](int cc) { double m = 0; for (int q = 0; q < 4; ++q) m += std::fabs((double)a[cc][q] * (double)v[q]); return m; })
   KCHK("glm_mat4_determinant_highp", 5, _mm_cvtss_f32(glm_mat4_determinant_highp(ma)), glm::determinant(pa), TOL, 16, false, [&](int) { return (double)per; })
   KCHK("glm_mat4_determinant_lowp", 6, _mm_cvtss_f32(glm_mat4_determinant_lowp(ma)), glm::determinant(pa), TOL, 16, false, [&](int) { return (double)per; })
   if (fabsl(det) > 256 * unit<T>() * per) { glm_mat4_inverse_lowp(ma, mo); KCHK("glm_mat4_inverse_lowp", 7, st4(mo), glm::inverse(pa), TOL, 16, true, [&](int l) { minor_of<T, 4>(a, l % 4, l / 4, tmp); long double pm = ldet(tmp, 3, true), cf = fabsl(ldet(tmp, 3, false)); return (double)(pm / fabsl(det) + cf * per / (det * det)); }) }
@@ -579,7 +580,7 @@ static void op_kernel_vec(const Case& cs, Outcome& o) {
   KCHK("glm_vec4_sign", 8 + (nan ? 1 : 0), stv(glm_vec4_sign(mx)), glm::sign(px), EXACT, 0, false, zero) KCHK("glm_vec4_roundEven", 10 + (nan ? 1 : 0), stv(glm_vec4_roundEven(mx)), glm::roundEven(px), EXACT, 0, false, zero)
   if (ordered || nan) KCHK("glm_vec4_clamp", 12 + (nan ? 1 : 0), stv(glm_vec4_clamp(mx, my, mz)), glm::clamp(px, py, pz), EXACT, 0, false, zero)
   { glm::vec4 t_ = glm::mix(px, py, pz); fin = fin && fin_(t_.x + t_.y + t_.z + t_.w) && fin_(x[0] * z[0] + x[1] * z[1] + x[2] * z[2] + x[3] * z[3]); }
-  if (fin) KCHK("glm_vec4_mix", 14, stv(glm_vec4_mix(mx, my, mz)), glm::mix(px, py, pz), TOL, 4, false, [&](int k) { return std::fabs((double)x[k] * (1.0 - z[k])) + std::fabs((double)y[k] * z[k]) + std::fabs((double)x[k]); })
+  if (fin) KCHK("glm_vec4_mix", 14, stv(glm_vec4_mix(mx, my, mz)), glm::mix(px, py, pz), TOL, 8, false, [&](int k) { return std::fabs((double)x[k] * (1.0 - z[k])) + std::fabs((double)y[k] * z[k]) + std::fabs((double)x[k]); })
   KCHK("glm_vec4_step", 15 + (nan ? 1 : 0), stv(glm_vec4_step(mx, my)), glm::step(px, py), EXACT, 0, false, zero)
   { glm::vec4 n = stv(glm_vec4_nan(mx)), i = stv(glm_vec4_inf(mx)); Ctx c{o, "glm_vec4_nan / glm_vec4_inf (all-ones mask where the component is NaN / infinite)", 4, 0, 0, 17, 0, true}; for (int k = 0; k < 4; ++k) { ++checked; bool gn = b32(n[k]) == 0xffffffffu, gi = b32(i[k]) == 0xffffffffu, wn = is_nan(x[k]), wi = !fin_(x[k]) && !is_nan(x[k]);
       if (gn != wn) { c.kind = 17; fail(c, k, b32(n[k]), wn ? 0xffffffffu : 0, "glm_vec4_nan mask"); return; } if (gi != wi) { c.kind = 18; fail(c, k, b32(i[k]), wi ? 0xffffffffu : 0, "glm_vec4_inf mask"); return; } } }
@@ -587,23 +588,19 @@ static void op_kernel_vec(const Case& cs, Outcome& o) {
 }
 #endif
 
-// ======================================================================================= operator swizzles (part 9 only: GLM_FORCE_SWIZZLE)
+// ======================================================================================= operator swizzles (part 13 only: GLM_FORCE_SWIZZLE)
 #if defined(GLM_FORCE_SWIZZLE)
 template <typename T, int K> static bool swz_one(const T* a, Outcome& o, int& checked) {
   constexpr glm::qualifier A = QS<K>::A; typedef glm::vec<4, T, A> V4; typedef glm::vec<3, T, A> V3; typedef glm::vec<2, T, A> V2; const T x = a[0], y = a[1], z = a[2], w = a[3];
   for (int path = 0; path < NPATH3; ++path) { V4 v = mk4<T, A>(path % NPATH4, a); V3 c3 = mk3<T, A>(path, a);
-    { const int LL = 4; CHKV("vec4.wzyx", V4(v.wzyx), 4, w, z, y, x) CHKV("vec4.xxxx", V4(v.xxxx), 4, x, x, x, x) CHKV("vec4.yzwx", V4(v.yzwx), 4, y, z, w, x) CHKV("vec4.zyx", V3(v.zyx), 3, z, y, x) CHKV("vec4.rgba", V4(v.rgba), 4, x, y, z, w) CHKV("vec4.stpq + vec4.wwww", V4(v.abgr), 4, w, z, y, x)
+    { const int LL = 4; CHKV("vec4.wzyx", V4(v.wzyx), 4, w, z, y, x) CHKV("vec4.xxxx", V4(v.xxxx), 4, x, x, x, x) CHKV("vec4.yzwx", V4(v.yzwx), 4, y, z, w, x) CHKV("vec4.zyx", V3(v.zyx), 3, z, y, x) CHKV("vec4.rgba", V4(v.rgba), 4, x, y, z, w) CHKV("vec4.abgr", V4(v.abgr), 4, w, z, y, x)
       CHKV("vec4.wzyx = vec4", [&]() { V4 t(x); t.wzyx = v; return t; }(), 4, w, z, y, x) CHKV("vec4.zw = vec2", [&]() { V4 t(v); t.zw = V2(x, y); return t; }(), 4, x, y, x, y) }
     { const int LL = 3; CHKV("vec3.zyx", V3(c3.zyx), 3, z, y, x) CHKV("vec3.xxyy", V4(c3.xxyy), 4, x, x, y, y) CHKV("vec3.yyy", V3(c3.yyy), 3, y, y, y) CHKV("vec3.zxy = vec3", [&]() { V3 t(w); t.zxy = c3; return t; }(), 3, y, z, x) CHKV("vec3.zzzx", V4(c3.zzzx), 4, z, z, z, x) }
-    if (!std::is_same<T, glm::uint>::value) { const int LL = 4;
-#ifndef C03_TRY_ALL
-      if (std::is_same<T, glm::uint>::value) continue;      // _swizzle_base1<2, uint, Q, ..., true> has no fallback: two-component swizzles of aligned uvec3/uvec4 are ill-formed
-#endif
-    }
   }
   return true;
 }
-template <typename T, int K> static bool swz2_one(const T* a, Outcome& o, int& checked) {      // two-component results (float, int)
+// two-component results: float and int only (_swizzle_base1<2, uint, Q, ..., true> has no fallback, two-component swizzles of aligned uvec3/uvec4 are ill-formed)
+template <typename T, int K> static bool swz2_one(const T* a, Outcome& o, int& checked) {
   constexpr glm::qualifier A = QS<K>::A; typedef glm::vec<4, T, A> V4; typedef glm::vec<3, T, A> V3; typedef glm::vec<2, T, A> V2; const T x = a[0], y = a[1], z = a[2], w = a[3]; (void)z;
   for (int path = 0; path < NPATH3; ++path) { V4 v = mk4<T, A>(path % NPATH4, a); V3 c3 = mk3<T, A>(path, a); { const int LL = 4; CHKV("vec4.wx", V2(v.wx), 2, w, x) } { const int LL = 3; CHKV("vec3.yx", V2(c3.yx), 2, y, x) } }
   return true;
@@ -642,8 +639,7 @@ template <typename T> static void reg_arith(Engine& E) {            // every T
   { Op& op = E.add(std::string("constructors, copies, xyz0/xyz1/xyzz/xyz/splat helpers <") + TN<T>::n() + "> aligned_{highp,mediump,lowp}", op_ctor<T>); size_t n = spec<T>().size(); op.quick = {product("SPEC^2", {range("i", 0, n, false), range("j", 0, n, false)})}; }
   { Op& op = E.add(std::string("mix(x, y, bvec) <") + TN<T>::n() + "> vec3(8 operand paths)/vec4 x aligned_{highp,mediump,lowp}", op_mixb<T>); size_t n = spec<T>().size(); op.quick = {product("SPEC^2 x masks", {range("i", 0, n, false), range("j", 0, n, false), range("mask", 0, 16, true)})}; }
 }
-template <typename T> static void reg_int(Engine& E) {              // int / uint
-  reg_arith<T>(E);
+template <typename T> static void reg_int(Engine& E) {              // int / uint (bitwise, remainder, shifts, relational)
   RL<O_rem, T, 2, 0, 0>(E); RL<O_rem, T, 2, 2, 0>(E); RL<O_and, T, 2, 0, 0>(E); RL<O_and, T, 2, 2, 0>(E); RL<O_or, T, 2, 0, 0>(E); RL<O_or, T, 2, 2, 0>(E); RL<O_xor, T, 2, 0, 0>(E); RL<O_xor, T, 2, 2, 0>(E); RL<O_shl, T, 2, 0, 2>(E); RL<O_shl, T, 2, 2, 2>(E); RL<O_shr, T, 2, 0, 2>(E); RL<O_shr, T, 2, 2, 2>(E);
   RL<C_rema, T, 2, 0, 0>(E); RL<C_anda, T, 2, 2, 0>(E); RL<C_ora, T, 2, 0, 0>(E); RL<C_xora, T, 2, 2, 0>(E); RL<C_shla, T, 2, 2, 2>(E); RL<C_shra, T, 2, 0, 2>(E); RL<U_not, T, 1, 0, 0>(E);
   RL<F_lessThan, T, 2, 0, 0>(E); RL<F_greaterThanEqual, T, 2, 0, 0>(E); RL<F_equal, T, 2, 0, 0>(E); RL<F_notEqual, T, 2, 0, 0>(E); RL<F_findLSB, T, 1, 0, 0>(E);
@@ -676,36 +672,48 @@ int main(int argc, char** argv) {
     "lowp: results may deviate by 2^-11 (relative) from the exact value wherever the operation divides or takes a (reciprocal) square root, on operands for which rcp/rsqrt are specified (|x| in [1e-30, 1e30])",
     "cells that do not compile on the unchanged tree are excluded by macro (C03_NO_INT_MINMAX below SSE4.1, C03_NO_INT4_BITFUNCS, C03_NO_DOUBLE_FMA at AVX2 without -mfma, C03_NO_INT_XYZ, double and two-component uint swizzles); -DC03_TRY_ALL re-enables them"};
 #if PART(0)
-  reg_round_select<float>(E); reg_arith<float>(E);
+  reg_round_select<float>(E);
 #endif
 #if PART(1)
-  reg_math<float>(E);
-  { Op& op = E.add("element-type conversions float -> int/uint/double, int-argument constructors of aligned vectors", op_conv<float, int>); op.quick = {DL<float>(0)}; } { Op& op = E.add("element-type conversions float -> uint", op_conv<float, glm::uint>); op.quick = {DL<float>(0)}; } { Op& op = E.add("element-type conversions float -> double", op_conv<float, double>); op.quick = {DL<float>(0)}; }
-  { Op& op = E.add("floatBitsToInt / floatBitsToUint <float>", op_lw<F_floatBitsToInt, float, 1, 0, 0>); op.quick = {DL<float>(0)}; } { Op& op = E.add("floatBitsToUint <float>", op_lw<F_floatBitsToUint, float, 1, 0, 0>); op.quick = {DL<float>(0)}; }
+  reg_arith<float>(E);
 #endif
 #if PART(2)
-  reg_round_select<double>(E); reg_arith<double>(E);
+  reg_math<float>(E);
+  { Op& op = E.add("element-type conversions float -> int, int-argument constructors of aligned vectors", op_conv<float, int>); op.quick = {DL<float>(0)}; } { Op& op = E.add("element-type conversions float -> uint", op_conv<float, glm::uint>); op.quick = {DL<float>(0)}; } { Op& op = E.add("element-type conversions float -> double", op_conv<float, double>); op.quick = {DL<float>(0)}; }
+  { Op& op = E.add("floatBitsToInt <float>", op_lw<F_floatBitsToInt, float, 1, 0, 0>); op.quick = {DL<float>(0)}; } { Op& op = E.add("floatBitsToUint <float>", op_lw<F_floatBitsToUint, float, 1, 0, 0>); op.quick = {DL<float>(0)}; }
 #endif
 #if PART(3)
-  reg_math<double>(E); { Op& op = E.add("element-type conversions double -> float", op_conv<double, float>); op.quick = {DL<double>(0)}; } { Op& op = E.add("element-type conversions double -> int", op_conv<double, int>); op.quick = {DL<double>(0)}; }
+  reg_round_select<double>(E);
 #endif
 #if PART(4)
-  reg_int<int>(E); reg_int_guarded<int>(E); RL<F_abs, int, 1, 0, 0>(E); RL<F_sign, int, 1, 0, 0>(E);
-  { Op& op = E.add("element-type conversions int -> float (CTOR_VECF_INT) / uint / double", op_conv<int, float>); op.quick = {DL<int>(0)}; } { Op& op = E.add("element-type conversions int -> uint", op_conv<int, glm::uint>); op.quick = {DL<int>(0)}; } { Op& op = E.add("element-type conversions int -> double", op_conv<int, double>); op.quick = {DL<int>(0)}; }
-  { Op& op = E.add("intBitsToFloat <int>", op_lw<F_intBitsToFloat, int, 1, 0, 0>); op.quick = {DL<int>(0)}; }
+  reg_arith<double>(E);
 #endif
 #if PART(5)
-  reg_int<glm::uint>(E); reg_int_guarded<glm::uint>(E);
+  reg_math<double>(E); { Op& op = E.add("element-type conversions double -> float", op_conv<double, float>); op.quick = {DL<double>(0)}; } { Op& op = E.add("element-type conversions double -> int", op_conv<double, int>); op.quick = {DL<double>(0)}; }
+#endif
+#if PART(6)
+  reg_arith<int>(E); RL<F_abs, int, 1, 0, 0>(E); RL<F_sign, int, 1, 0, 0>(E);
+  { Op& op = E.add("element-type conversions int -> float (CTOR_VECF_INT)", op_conv<int, float>); op.quick = {DL<int>(0)}; } { Op& op = E.add("element-type conversions int -> uint", op_conv<int, glm::uint>); op.quick = {DL<int>(0)}; } { Op& op = E.add("element-type conversions int -> double", op_conv<int, double>); op.quick = {DL<int>(0)}; }
+  { Op& op = E.add("intBitsToFloat <int>", op_lw<F_intBitsToFloat, int, 1, 0, 0>); op.quick = {DL<int>(0)}; }
+#endif
+#if PART(7)
+  reg_int<int>(E); reg_int_guarded<int>(E);
+#endif
+#if PART(8)
+  reg_arith<glm::uint>(E);
   { Op& op = E.add("element-type conversions uint -> float", op_conv<glm::uint, float>); op.quick = {DL<glm::uint>(0)}; } { Op& op = E.add("element-type conversions uint -> int", op_conv<glm::uint, int>); op.quick = {DL<glm::uint>(0)}; }
   { Op& op = E.add("uintBitsToFloat <uint>", op_lw<F_uintBitsToFloat, glm::uint, 1, 0, 0>); op.quick = {DL<glm::uint>(0)}; }
 #endif
-#if PART(6)
+#if PART(9)
+  reg_int<glm::uint>(E); reg_int_guarded<glm::uint>(E);
+#endif
+#if PART(10)
   reg_geo<float>(E); reg_geo<double>(E);
 #endif
-#if PART(7)
+#if PART(11)
   RM<float, 4>(E); RM<float, 3>(E); RM<double, 4>(E); RM<double, 3>(E); RQ<float>(E); RQ<double>(E);
 #endif
-#if PART(8)
+#if PART(12)
   { Op& op = E.add("kernel: glm_mat4_add/sub/mul, glm_mat4_mul_vec4, glm_vec4_mul_mat4, glm_mat4_determinant_highp/_lowp, glm_mat4_inverse_lowp (not reached by any vec/mat/quat operation) vs packed mat4", op_kernel_mat);
     size_t nm = modv<float>().size(); op.quick = {product("{0,1}^16 patterns x {raw, +3I, tagged}", {range("mode0", 0, 1), range("pattern", 0, 65536), range("variant", 0, 3)}), product("MOD lattice matrices^2", {range("mode1", 1, 1), range("i", 0, nm, false), range("j", 0, nm, false)})}; }
   { Op& op = E.add("kernel: glm_vec4_sign/roundEven/clamp/mix/step/nan/inf (not reached by any vec/mat/quat operation) vs packed vec4 function of the same name", op_kernel_vec); op.quick = {product("SPEC^3", {DL<float>(0), DL<float>(0), DL<float>(0)})}; }
